@@ -27,9 +27,11 @@ ASSUMPTIONS = [
 ]
 FLOORS = {
     "quick": {"roundtrips": 5000, "with-strings": 4000, "with-multiline": 200,
-              "with-hostile-quoting": 500, "serialisations-into-a-chunk-list": 100},
+              "with-hostile-quoting": 500, "serialisations-into-a-chunk-list": 100,
+              "roundtrips-reparsed-by-the-parser-that-parsed-the-source": 1500},
     "thorough": {"roundtrips": 150000, "with-strings": 100000, "with-multiline": 5000,
-                 "with-hostile-quoting": 10000},
+                 "with-hostile-quoting": 10000,
+                 "roundtrips-reparsed-by-the-parser-that-parsed-the-source": 40000},
 }
 SHARD_TIMEOUT = {"quick": 600, "thorough": 3000}
 
@@ -55,12 +57,15 @@ def _has_str(nf):
     return False
 
 
-def evaluate(data):
+def evaluate(data, same_parser=False):
+    """same_parser: the printed script is parsed again by the very Parser object that parsed
+    the source (load - print - load on one object), not by a fresh one"""
     o = lab.parse(data)
     if o.verdict() is not True:
         return None, []
     out = []
-    info = {"mls": b"text:" in data, "hostile": b'\\"' in data or b"\\\\" in data}
+    info = {"mls": b"text:" in data, "hostile": b'\\"' in data or b"\\\\" in data,
+            "same_parser": same_parser}
     try:
         nf0 = _canon(lab.nf_result(o.result, decoded=True))
     except RecursionError:
@@ -73,7 +78,7 @@ def evaluate(data):
         return info, [({"step": "tosieve-raised", "exc": exc, "frame": frame},
                        "tosieve: %r" % (t1,))]
     b1 = t1.encode("utf-8", "surrogatepass")
-    o1 = lab.parse(b1)
+    o1 = lab.parse(b1, parser=o.parser if same_parser else None)
     if o1.verdict() is not True:
         return info, [({"step": "output-rejected",
                         "error": lab.error_class(o1.error) if o1.verdict() is False
@@ -135,12 +140,19 @@ def _where(a, b):
     return _diff_class(a, b)
 
 
+SAME = {"n": 0}
+
+
 def check_case(label, data, info, res: Result):
-    meta, viols = evaluate(data)
+    SAME["n"] += 1
+    same = label != "tok" and SAME["n"] % 3 == 0
+    meta, viols = evaluate(data, same)
     if meta is None:
         res.case(data, nontrivial=False)
         return
     res.count("roundtrips")
+    if same:
+        res.count("roundtrips-reparsed-by-the-parser-that-parsed-the-source")
     if meta["strings"]:
         res.count("with-strings")
     if meta["mls"]:
@@ -162,15 +174,16 @@ def check_case(label, data, info, res: Result):
             from ..core import minimise
 
             def pred(t):
-                r = evaluate(gen.join_tokens(t))[1]
+                r = evaluate(gen.join_tokens(t), same)[1]
                 return any(v[0] == sig for v in r)
             small = minimise(info["toks"], pred)
             cand = gen.join_tokens(small)
-            r2 = evaluate(cand)[1]
+            r2 = evaluate(cand, same)[1]
             if any(v[0] == sig for v in r2):
                 wdata = cand
                 detail = [v[1] for v in r2 if v[0] == sig][0]
-        res.violation(sig, {"input": wdata, "label": label, "detail": detail})
+        res.violation(sig, {"input": wdata, "label": label, "detail": detail,
+                            "output_reparsed_by_the_same_parser_object": same})
 
 
 def run_shard(tier, shard, res: Result):
@@ -184,4 +197,6 @@ def run_shard(tier, shard, res: Result):
 
 def replay(witness, res: Result):
     from ..core import unjson_bytes
+    if witness.get("output_reparsed_by_the_same_parser_object"):
+        SAME["n"] = 2  # the next case re-parses on the same Parser object
     check_case("replay", unjson_bytes(witness["input"]), {}, res)
